@@ -201,13 +201,17 @@ func VerifC11_History() {
 	w.collRds, w.chanRds = nil, nil
 	_ = nrd
 	cdc2 := sNewCDC(w.f)
+	// the start of the reloaded tasks may fail (reader construction fails for every task)
+	startFails := vBool("reload.startFails")
+	w.readerFails = startFails
 	cdc2.ReloadTask()
+	w.readerFails = false
 	for _, t := range tasks {
 		if !t.exists {
 			continue
 		}
-		if t.noAuto {
-			t.state = meta.TaskStatePaused
+		if t.noAuto || startFails {
+			t.state = meta.TaskStatePaused // a task whose start fails is paused with the reason
 		} else {
 			t.state = meta.TaskStateRunning
 		}
